@@ -57,7 +57,7 @@ def _compare(ctx, case, dtype):
 def _random_records(ctx, count, nmax):
     from phylib.io import array as A
     rng = np.random.RandomState(ctx.seed + 7)
-    recs = []
+    recs, flat_recs = [], []
     for rid in range(1, count + 1):
         n = int(rng.randint(1, nmax + 1)) if rid % 4 else int(rng.randint(5, 80))
         nid = int(rng.choice([2, 5, 40, 300]))
@@ -85,6 +85,16 @@ def _random_records(ctx, count, nmax):
             inClusters=as_list(A._spikes_in_clusters(vv, req)), flat=as_list(A._flatten_per_cluster(d)),
             lookup=lookup, indexOf=as_list(A._index_of(vneg, lookup)), vneg=as_list(vneg), w=w,
             mean=[[f.numerator, f.denominator] for f in fr]))
+        if rid % 5 == 0:
+            # flatten is a set union: groups that SHARE spikes (e.g. groups of the cluster vector and of the
+            # template vector in one dictionary), unsorted, with an empty group
+            pool2 = rng.randint(0, 30, size=12)
+            g = {int(a): [int(x) for x in rng.permutation(pool2)[:int(rng.randint(0, 8))]] for a in range(int(rng.randint(1, 5)))}
+            flat_recs.append(dict(kind='call_flatten', groups=[[a, b] for a, b in sorted(g.items())],
+                                  out=as_list(A._flatten_per_cluster({a: np.asarray(b, dtype=np.int64) for a, b in g.items()}))))
+    for r in flat_recs:
+        r['id'] = len(recs) + 1
+        recs.append(r)
     return recs
 
 
